@@ -45,7 +45,9 @@ LEVEL_TEXT = ("proof: index resolution equals numpy's list semantics (C01_resolv
               "reference model Spec, results and errors, for EVERY operation of the protocol: getitem (all index kinds, "
               "1-D and 2-D), setitem (atom and model), deletion, concatenate, stack, repeat, from_template, array, "
               "annotation edits, setters, copy and the == observation (C01_refines_*), combined in C01_refines (one step, "
-              "any well-formed state) and C01_refines_history (all histories). Not proved, tied by correspondence and the "
+              "any well-formed state) and C01_refines_history (all histories); refusals happen exactly where the contract says "
+              "(C01_dup_index_rejects, C01_setitem_missing_category_rejects, C01_box_depth_rejects, "
+              "C01_setmodel_boxless_rejects, C01_resolve_int_rejects). Not proved, tied by correspondence and the "
               "independent list-of-atom-objects oracle: that the Lean model is the code (op-by-op differential check), "
               "string-width handling of numpy (values compared as strings of varying width), memory aliasing of copies")
 LEVEL_NOTE = "numpy indexing trusted as oracle for resolve; aliasing (views) excluded; tokens opaque"
@@ -616,7 +618,15 @@ def run_impl(case):
 
 # ------------------------------------------------------------------ reference: a plain list of atom objects
 class Reject(Exception):
-    """The reference model says: this operation is not defined (the code must reject it and change nothing)."""
+    """The reference model says: this operation is not defined (the code must reject it and change nothing).
+    `classes`: the exception classes the documented contract allows for this refusal (None: protocol artefact)."""
+
+    def __init__(self, msg, classes=None):
+        super().__init__(msg)
+        self.classes = classes
+
+
+NP = ("IndexError", "ValueError")            # numpy's index errors
 
 
 class RA:  # one atom object; identity matters (bonds refer to objects, not positions)
@@ -655,10 +665,10 @@ class RC:  # container: list of atom objects (+ per-model boxes, bonds between a
             for x, y, t in self.bonds:
                 if id(x) in mp and id(y) in mp:
                     if mp[id(x)] is None or mp[id(y)] is None:
-                        raise Reject("duplicate atom in a bonded selection")
+                        raise Reject("duplicate atom in a bonded selection", ("NotImplementedError",))
                     bonds.append((mp[id(x)], mp[id(y)], t))
             if any(v is None for v in mp.values()):
-                raise Reject("duplicate atom in a selection of a container with bonds (documented: not supported)")
+                raise Reject("duplicate atom in a selection of a container with bonds (documented: not supported)", ("NotImplementedError",))
         depth = self.depth if models is None else len(models)
         boxes = self.boxes if (self.boxes is None or models is None) else [self.boxes[m] for m in models]
         return RC(self.stack and not to_array, self.names, atoms, depth, boxes, bonds)
@@ -685,7 +695,7 @@ def ref_resolve(n, idx):
     try:
         res = np.arange(n)[np_index(idx)]
     except (IndexError, ValueError) as e:
-        raise Reject(f"numpy rejects the index: {e}")
+        raise Reject(f"numpy rejects the index: {e}", NP)
     if k == "int":
         return [int(res)]
     return [int(x) for x in res]
@@ -752,13 +762,13 @@ class Ref:
             c = r[w[2]]
             atom_ix = w[4] if o == "get2" else (w[3] if not c.stack else "e")
             if atom_ix in ("m", "n") and len(c.atoms) > 0:
-                raise Reject("boolean mask of the wrong length (0) on a container with bonds")
+                raise Reject("boolean mask of the wrong length (0) on a container with bonds", ("IndexError",))
         if o == "get":
             c = self._arr(w[2])
             kind, p = dec_idx(w[3])
             if not c.stack:
                 if kind == "ell":
-                    raise Reject("array[...] is rejected by the code (double ellipsis); harmless")
+                    raise Reject("array[...] is rejected by the code (double ellipsis); harmless", ("IndexError",))
                 sel = ref_resolve(len(c.atoms), w[3])
                 res = self._atom_of(c, sel[0]) if kind == "int" else c.clone(sel)
             else:
@@ -774,12 +784,12 @@ class Ref:
             k1, _p1 = dec_idx(w[4])
             if not c.stack:
                 if k0 != "ell" or k1 == "ell":
-                    raise Reject("an atom array takes one index")
+                    raise Reject("an atom array takes one index", ("IndexError",))
                 sel = ref_resolve(len(c.atoms), w[4])
                 res = self._atom_of(c, sel[0]) if k1 == "int" else c.clone(sel)
             else:
                 if k1 == "ell":
-                    raise Reject("stack[x, ...] is rejected by the code; harmless")
+                    raise Reject("stack[x, ...] is rejected by the code; harmless", ("IndexError",))
                 ms = list(range(c.depth)) if k0 == "ell" else ref_resolve(c.depth, w[3])
                 sel = ref_resolve(len(c.atoms), w[4])
                 if k0 == "int" and k1 == "int":
@@ -796,7 +806,7 @@ class Ref:
                 if not isinstance(v, RA) or kind not in ("int", "mask", "nmask", "rmask", "arr", "uarr", "warr"):
                     raise Reject("element assignment takes an integer/ndarray index and an Atom")
                 if not c.names <= set(v.ann):
-                    raise Reject("atom lacks an annotation of the array")
+                    raise Reject("atom lacks an annotation of the array", ("KeyError",))
                 sel = ref_resolve(len(c.atoms), w[2])
                 for i in sel:
                     c.atoms[i].ann = {k: v.ann[k] for k in c.names}
@@ -806,22 +816,22 @@ class Ref:
                     raise Reject("model assignment takes an integer index and an AtomArray")
                 if v.names != c.names or len(v.atoms) != len(c.atoms) or any(
                         a.ann != b.ann for a, b in zip(v.atoms, c.atoms)):
-                    raise Reject("unequal annotations")
+                    raise Reject("unequal annotations", ("ValueError",))
                 if _bondset(v) != _bondset(c):
-                    raise Reject("unequal bonds")
-                if (v.boxes is None) != (c.boxes is None):
-                    raise Reject("box presence differs")
+                    raise Reject("unequal bonds", ("ValueError",))
+                if c.boxes is not None and v.boxes is None:
+                    raise Reject("the stack has boxes, the array has none", ("ValueError",))
                 m = ref_resolve(c.depth, w[2])[0]
                 for a, b in zip(c.atoms, v.atoms):
                     a.co[m] = b.co[0]
                 if c.boxes is not None:
-                    c.boxes[m] = v.boxes[0]
+                    c.boxes[m] = v.boxes[0]        # (a stack without boxes ignores the array's box)
             return self.all_regs()
         if o == "del":
             c = self._arr(w[1])
             kind, p = dec_idx(w[2])
             if kind != "int":
-                raise Reject("deletion takes an integer")
+                raise Reject("deletion takes an integer", ("TypeError",))
             if not c.stack:
                 i = ref_resolve(len(c.atoms), w[2])[0]
                 gone = c.atoms.pop(i)
@@ -838,11 +848,11 @@ class Ref:
         if o == "concat":
             lst = [] if w[2] == "_" else [self._arr(x) for x in w[2].split(",")]
             if not lst:
-                raise Reject("empty list")
+                raise Reject("empty list", ("IndexError", "AttributeError"))
             if any(x.stack != lst[0].stack for x in lst):
-                raise Reject("mixed types")
+                raise Reject("mixed types", ("TypeError", "IndexError"))
             if any(x.depth != lst[0].depth for x in lst):
-                raise Reject("depth differs")
+                raise Reject("depth differs", ("IndexError", "TypeError"))
             names = set.intersection(*[x.names for x in lst]) | set(MAND)
             parts = [x.clone() for x in lst]
             atoms = []
@@ -864,7 +874,7 @@ class Ref:
             f = lst[0]
             for x in lst:
                 if x.names != f.names or len(x.atoms) != len(f.atoms) or any(a.ann != b.ann for a, b in zip(x.atoms, f.atoms)):
-                    raise Reject("unequal annotations")
+                    raise Reject("unequal annotations", ("ValueError",))
             res = f.clone()
             for i, a in enumerate(res.atoms):
                 a.co = [x.atoms[i].co[0] for x in lst]
@@ -877,7 +887,7 @@ class Ref:
             if not lst or any(not isinstance(x, RA) for x in lst):
                 raise Reject("needs atoms")
             if any(set(x.ann) != set(lst[0].ann) for x in lst):
-                raise Reject("annotation categories differ")
+                raise Reject("annotation categories differ", ("ValueError",))
             res = RC(False, set(lst[0].ann) | set(MAND), [x.clone() for x in lst], 1, None, None)
             r[w[1]] = res
             return canon_ref(res)
@@ -888,9 +898,9 @@ class Ref:
             ts = untoks(ts)
             n = len(c.atoms)
             if len(ts) != k * c.depth * n:
-                raise Reject("coordinate count")
+                raise Reject("coordinate count", ("ValueError",))
             if k == 0 and c.bonds is not None and n > 0:
-                raise Reject("zero repetitions of a bonded container: rejected by the code; harmless")
+                raise Reject("zero repetitions of a bonded container: rejected by the code; harmless", ("ValueError",))
             parts = [c.clone() for _ in range(k)]
             atoms = [a for x in parts for a in x.atoms]
             # coord has shape (k, depth, n): copy j of atom i has coord[j, m, i] in model m
@@ -908,9 +918,9 @@ class Ref:
             blocks = dec_coord(coord)
             b = dec_box(box)
             if any(len(x) != len(c.atoms) for x in blocks):
-                raise Reject("coordinate count")
+                raise Reject("coordinate count", ("ValueError",))
             if b is not None and len(b) != len(blocks):
-                raise Reject("box depth (accepted by the code: attribute setters do not check depth)")
+                raise Reject("box depth differs from the number of models", ("ValueError",))
             res = c.clone()
             for i, a in enumerate(res.atoms):
                 a.co = [x[i] for x in blocks]
@@ -928,7 +938,7 @@ class Ref:
             c = self._arr(w[1])
             ts = untoks(w[3])
             if len(ts) != len(c.atoms):
-                raise Reject("length")
+                raise Reject("length", ("IndexError",))
             c.names.add(w[2])
             for a, t in zip(c.atoms, ts):
                 a.ann[w[2]] = t
@@ -944,9 +954,9 @@ class Ref:
             c = self._arr(w[1])
             blocks = dec_coord(w[2])
             if any(len(x) != len(c.atoms) for x in blocks) or (not c.stack and len(blocks) != 1):
-                raise Reject("shape")
+                raise Reject("shape", ("ValueError",) if c.stack or len(blocks) == 1 else None)
             if c.boxes is not None and len(blocks) != c.depth:
-                raise Reject("depth change with a box (accepted by the code)")
+                raise Reject("coordinates with another number of models while a box is set", ("ValueError",))
             for i, a in enumerate(c.atoms):
                 a.co = [x[i] for x in blocks]
             c.depth = len(blocks)
@@ -955,7 +965,7 @@ class Ref:
             c = self._arr(w[1])
             b = dec_box(w[2])
             if b is not None and len(b) != c.depth:
-                raise Reject("box depth (accepted by the code)")
+                raise Reject("box depth differs from the number of models", ("ValueError",) if c.stack else None)
             c.boxes = b
             return canon_ref(c)
         if o == "setbonds":
@@ -1091,10 +1101,18 @@ def _oracle(case):
         real = impl.do(op)
         if real == "UB":
             real = "ERR:IndexError"      # (only reached if the forked probe saw the IndexError the property asks for)
+        allowed = None
         try:
             exp = "ok " + ref.do(op)
         except Reject as e:
             exp = "REJECT " + str(e)
+            allowed = e.classes
+            if allowed is not None:
+                w0 = op.split()
+                if w0[0] == "get2":        # two axes may both be invalid; the code looks at the atom axis first
+                    allowed = tuple(set(allowed) | set(NP) | {"NotImplementedError"})
+                if w0[0] in ("get", "get2") and any(x[0] in "nrw" for x in w0[3:]):
+                    allowed = tuple(set(allowed) | {"ValueError"})      # known findings: strided / read-only / byte-swapped
         cls = _op_class(op)
         w = op.split()
         if real == "ERR:ValueError" and exp.startswith("ok ") and w[0] in ("get", "get2") and any(
@@ -1111,8 +1129,6 @@ def _oracle(case):
             # a wrongly rejected operation
             return [(f"C01/{cls}/error-{real[4:]}", f"op {k} `{op}`: reference gives {exp[3:][:160]}, code raises {real[4:]}")]
         if real.startswith("ok ") and exp.startswith("REJECT"):
-            if case.get("malformed") and "accepted by the code" in exp:
-                return []        # outside the property's operations (attribute setters); see notes
             return [(f"C01/{cls}/accepted-invalid", f"op {k} `{op}`: {exp}; code returns {real[3:][:160]}")]
         if real.startswith("ok "):
             if real != exp:
@@ -1136,7 +1152,11 @@ def _oracle(case):
                 if sh:
                     return [(f"C01/copy/shares-{sh[0].split(':')[0]}", f"op {k} `{op}`: copy shares {sh}")]
         else:
-            # rejected by both: nothing may have changed
+            # rejected by both: only with an exception the contract allows for this refusal ...
+            if real.startswith("ERR:") and allowed is not None and real[4:] not in allowed:
+                return [(f"C01/{cls}/wrong-error-{real[4:]}", f"op {k} `{op}`: refused with {real[4:]}, the contract allows "
+                         f"{allowed} ({exp})")]
+            # ... and nothing may have changed
             if impl.all_regs() != ref.all_regs():
                 return [(f"C01/{cls}/changed-by-failed-op", f"op {k} `{op}` raised {real[4:]} but changed a register: "
                          f"{impl.all_regs()[:300]} != {ref.all_regs()[:300]}")]
@@ -1170,8 +1190,9 @@ def _oracle_api(case):
     rng = random.Random(case["api"]["seed"])
     impl, ref = Impl(), Ref()
     for op in case["api"]["new"]:
-        if not impl.do(op).startswith("ok") :
-            return []
+        res = impl.do(op)
+        if not res.startswith("ok"):
+            return [("C01/api/constructor", f"`{op[:120]}` -> {res}")]
         ref.do(op)
     out = []
 
@@ -1240,6 +1261,29 @@ def _oracle_api(case):
         if got is not a.coord:
             bad("coord", f"{reg}: coord(container) is not its coord")
     a0, a1, c0, c1 = impl.r["r0"], impl.r["r1"], ref.r["r0"], ref.r["r1"]
+    # --- regions the model abstains from (audit 6): run the code there, demand at least coherent containers
+    # (i) deleting a *mandatory* category (the documentation calls them mandatory; new objects re-create them)
+    x = a0.copy()
+    x.del_annotation(rng.choice(MAND))
+    for y in (x, x.copy(), x[..., :0] if False else x, (x + x) if True else x):
+        if _coherent(y):
+            bad("mandatory-deleted", f"after del_annotation of a mandatory category: {_coherent(y)}")
+    if len(c0.atoms) >= 2:
+        y = x[::-1] if not c0.stack else x[:, ::-1]
+        if _coherent(y) or y.array_length() != len(c0.atoms):
+            bad("mandatory-deleted", "reversed selection after deleting a mandatory category is incoherent")
+    # (ii) assignment through a view (numpy semantics: the parent sees it); a copy taken before must not
+    if isinstance(a0, AtomArray) and len(c0.atoms) >= 3:
+        parent = a0.copy()
+        before = parent.copy()
+        keep = canon_real(before)
+        view = parent[1:3]
+        atom = a0[0]
+        view[0] = atom
+        if _coherent(parent) or _coherent(view) or canon_real(before) != keep:
+            bad("view-assignment", f"assignment through a slice view: {_coherent(parent) or _coherent(view) or 'an earlier copy changed'}")
+        if canon_real(view[0]) != canon_real(atom):
+            bad("view-assignment", "the assigned atom is not read back from the view")
     # `+` == concatenate == reference
     r2 = Ref()
     r2.r = dict(ref.r)
@@ -1507,7 +1551,9 @@ class Gen:
                             self.emit(f"setbox {v} {self.c()}")
                     self.fresh(v)
                 else:
-                    self.new(v, stack=False, like=c)
+                    self.new(v, stack=False, like=c, vary_box=True)      # box presence may differ from the stack's
+                if rng.random() < 0.15 and isinstance(self.ref.r[v], RC) and not self.ref.r[v].stack:
+                    self.emit(f"setbox {v} {'-' if self.ref.r[v].boxes is not None else self.c()}")
                 self.emit(f"set {s} {self.index(c.depth, ['int'])} {v}")
             return
         if o == "del":
@@ -1565,7 +1611,7 @@ class Gen:
             m = rng.choice([0, 1, 2, 3])
             nn = n if not (self.malformed and rng.random() < 0.3) else n + 1
             coord = [[self.c() for _ in range(nn)] for _ in range(m)]
-            box = None if rng.random() < 0.5 else [self.c() for _ in range(m)]
+            box = None if rng.random() < 0.5 else [self.c() for _ in range(m if rng.random() < 0.8 else m + rng.choice([1, 2]))]
             self.emit(f"tmpl {d} {s} {enc_coord(coord)} {enc_box(box)}")
             self.link(d, [s])
             return
@@ -1581,12 +1627,13 @@ class Gen:
             self.emit(f"delann {s} {rng.choice(['i_x', 'f_y', 's_z', 'b_w', 'i_q', 'i_q'])}")
             return
         if o == "setcoord":
-            m = c.depth if (c.boxes is not None or rng.random() < 0.6 or not c.stack) else rng.choice([0, 1, 2, 3])
+            # a stack may change its depth by coordinate assignment, unless it has a box (then refused)
+            m = c.depth if (rng.random() < (0.8 if c.boxes is not None else 0.6) or not c.stack) else rng.choice([0, 1, 2, 3])
             nn = n if rng.random() < 0.9 else n + 1
             self.emit(f"setcoord {s} {enc_coord([[self.c() for _ in range(nn)] for _ in range(m)])}")
             return
         if o == "setbox":
-            m = c.depth
+            m = c.depth if (not c.stack or rng.random() < 0.8) else max(0, c.depth + rng.choice([-1, 1, 2]))   # wrong depth: refused
             self.emit(f"setbox {s} {enc_box(None if rng.random() < 0.3 else [self.c() for _ in range(m)])}")
             return
         if o == "setbonds":
